@@ -166,6 +166,13 @@ func (e *Emitter) emit(o Op) int {
 	e.ops = append(e.ops, o)
 	return e.nin + len(e.ops) - 1
 }
+// def returns the instruction that defines value id (nil for inputs and in count-only mode)
+func (e *Emitter) def(id int) *Op {
+	if e.countOnly || id < e.nin || id-e.nin >= len(e.ops) {
+		return nil
+	}
+	return &e.ops[id-e.nin]
+}
 func (e *Emitter) constant(n *big.Int) int {
 	k := n.String()
 	if id, ok := e.consts[k]; ok {
@@ -518,6 +525,21 @@ func (in *Interp) binop(op token.Token, x, y Value, t types.Type, xt types.Type)
 	case token.SUB:
 		if yconc && yc.v.Sign() == 0 {
 			return x
+		}
+		// peephole: x - ((x >> k) << k) is the low k bits of x (a mask written as a subtraction); emitted as `low`, which
+		// the analyses know never borrows.  (Like every emitted program this one is compared with the real function by T0.)
+		if xs, ok := x.(SymV); ok {
+			if ys, ok := y.(SymV); ok {
+				d := em.def(ys.id)
+				if d != nil && d.kind == "wrap" && d.k == n {
+					d = em.def(d.a)
+				}
+				if d != nil && d.kind == "shl" {
+					if d2 := em.def(d.a); d2 != nil && d2.kind == "shr" && d2.k == d.k && d2.a == xs.id && d.k < n {
+						return SymV{em.emit(Op{kind: "low", a: xs.id, k: d.k})}
+					}
+				}
+			}
 		}
 		return SymV{em.emit(Op{kind: "subw", a: id(x), b: id(y), k: n})}
 	case token.SHL, token.SHR:
